@@ -440,6 +440,14 @@ func (s *seqSt) emitInv(why string) {
 // amount generator for mints: boundary values of the user's delegation and amounts whose share value has a
 // small fractional part (the case in which the derivative minted exceeds the shares the module receives)
 func (s *seqSt) mintAmount(o slice) *big.Int {
+	x := s.mintAmount0(o)
+	if x.Sign() < 0 {
+		return bi(0)
+	}
+	return x
+}
+
+func (s *seqSt) mintAmount0(o slice) *big.Int {
 	r := s.r
 	if !o.found || o.delU == nil || o.shares.Sign() == 0 {
 		return bi(r.Range(1, 1000))
